@@ -8,6 +8,8 @@ from vlib import gen as G
 from vlib.defs import render_item
 
 ID = "C09"
+# look-alikes of prelude names (vlib/defs.py HOSTILE) this check's derives are immune to on the unchanged tree
+HOSTILE_OK = ['From', 'Option', 'Some', 'Ok', 'Iterator', 'Clone', 'AsRef', 'Send', 'PhantomData']
 PROP_FILE = "Props/C09.v"
 RULE = ("enums x kinds x type/const/lifetime generics and where-clauses x #[repr(int)] x explicit discriminants (also on "
         "data-carrying variants under a repr) x strum_discriminants(name(..), vis(..), derive(Hash, PartialOrd, Ord, EnumIter, "
@@ -87,6 +89,14 @@ def build_corpus(tier, rng):
                 if dm_kind == 4 and rp is None and any(d < 0 for d in ds):
                     continue        # FromRepr on the generated type uses usize when there is no repr
                 items.append(("systematic", it))
+    # SEVERAL strum(..) pass-through entries at enum level (separate or in one list): every one of them reaches the generated enum
+    for order in (0, 1):
+        pts = [pass_through([EM("aci")]), pass_through([EM("sall", "kebab-case")])]
+        if order:
+            pts.reverse()
+        it = Item("E", [Variant("DarkBlack", "tuple", [Field("u8")]), Variant("DimGray", "unit"), Variant("Fuchsia", "named", [Field("i32", "a")])],
+                  dmetas=[DM("derive", paths=["strum::EnumString", "strum::Display", "strum::VariantNames", "strum::EnumIter"])] + pts)
+        items.append(("passthrough", it))
     # several hints, in one #[repr] attribute or in several: ALL of them belong to the generated enum
     for rp, form in (("u8", ["u8", "align(4)"]), ("u8", ["align(4)", "u8"]), ("i16", ["i16, align(8)"]), ("u32", ["align(2)", "u32"]), ("i8", ["i8", "align(2)"])):
         it = Item("E", [Variant("A", "tuple", [Field("u8")], discr=3), Variant("B", "unit"), Variant("C", "named", [Field("i32", "a")], discr=(-2 if rp[0] == "i" else 9)), Variant("D", "unit")],
@@ -143,8 +153,18 @@ def dm_rust(m):
 
 def dm_sexp(m):
     if m.kind == "strum":
+        ems = getattr(m, "ems", None)
+        if ems is not None:
+            return "(strum %s)" % " ".join(e.sexp() for e in ems)
         return "(strum (sall %s))" % S.hx("kebab-case")
     return m.sexp()
+
+
+def pass_through(ems):
+    """#[strum_discriminants(strum(<enum-level items>))]"""
+    m = DM("strum", s="strum(%s)" % ", ".join(e.rust() for e in ems), paths=None)
+    m.ems = list(ems)
+    return m
 
 
 DM.rust_orig = DM.rust
